@@ -129,8 +129,12 @@ unsigned int stub_assemble_asm(struct instr *ins, uint8_t *dest) {
   if (g_need_reserve)
     CHECK(off + 20 <= g_buflen, "an instruction is written only while the documented 20 reserve bytes remain");
   g_pos[g_cur_prog][i] = off;
+#ifndef GLUE_NOWRITE
+  /* queries about positions and lengths only (GLUE_NOWRITE) skip the byte
+   * copy: symbolic-offset array stores dominate the formula size */
   for (unsigned j = 0; j < LMAX; j++)
     if (j < len) dest[j] = P->l[i].sig[j];
+#endif
   return len;
 }
 #endif
